@@ -27,9 +27,22 @@ def prop_module(pid):
     return importlib.import_module("props." + pid.lower())
 
 
-def get_harness(pid, tier, name):
+def harness_list(pid, tier):
+    """quick: the module's quick harnesses.  thorough: the same harnesses (explored completely, so that whatever
+    the quick tier finds the thorough tier finds too) followed by the module's deep harnesses (name prefix 'deep/'),
+    which share what is left of the time budget and report honestly when they did not finish."""
     mod = prop_module(pid)
-    for h in mod.harnesses(tier):
+    if tier != "thorough":
+        return mod.harnesses(tier)
+    hs = list(mod.harnesses("quick"))
+    for h in mod.harnesses("thorough"):
+        h.name = "deep/" + h.name
+        hs.append(h)
+    return hs
+
+
+def get_harness(pid, tier, name):
+    for h in harness_list(pid, tier):
         if h.name == name:
             return h
     raise KeyError("no harness %s in %s/%s" % (name, pid, tier))
@@ -398,7 +411,7 @@ def main(argv=None):
     known = [k for k in load_known() if k["property"] == pid]
     os.environ["VERIF_KNOWN"] = ",".join(sorted({k["id"] for k in known if k.get("status") == "open"
                                                  and k.get("class") == "history"}))
-    hs = mod.harnesses(tier)
+    hs = harness_list(pid, tier)
     if args.only:
         hs = [h for h in hs if h.name == args.only]
     budget = args.budget or float(os.environ.get("VERIF_BUDGET", 0)) or \
@@ -425,7 +438,10 @@ def main(argv=None):
     with cf.ProcessPoolExecutor(max_workers=NPROC, mp_context=ctx, initializer=_worker_init) as pool:
         for hi, h in enumerate(hs):
             # the remaining budget is shared equally among the harnesses still to run
-            h_deadline = time.time() + max(5.0, (deadline - time.time()) / (len(hs) - hi))
+            if tier == "thorough" and not h.name.startswith("deep/"):
+                h_deadline = deadline       # the quick harnesses are explored completely
+            else:
+                h_deadline = time.time() + max(5.0, (deadline - time.time()) / (len(hs) - hi))
             agg = explore_parallel(pool, pid, tier, h, h_deadline, seed, log)
             aggs[h.name] = agg
             for kid, vals in agg.known.items():
